@@ -9,7 +9,32 @@ from typing import List, Optional, Tuple
 
 from .loader import AnalysisError, ClassInfo, FuncInfo, Program
 
-ASSEMBLY_LAYER = ("moclo.core._assembly", "moclo.core._utils")
+_BASE_LAYER = ("moclo.core._assembly", "moclo.core._utils")
+
+
+def assembly_layer(p: Program) -> tuple:
+    """the modules of the assembly layer: moclo.core._assembly, moclo.core._utils, and any other private module of
+    moclo.core (`_citations`, `_plan`, ...) that _assembly imports -- helpers split off into a file of their own; the
+    module of the structured classes is not one of them"""
+    cached = getattr(p, "_assembly_layer", None)
+    if cached is not None:
+        return cached
+    out = list(_BASE_LAYER)
+    m = p.modules.get("moclo.core._assembly")
+    if m is not None:
+        for node in ast.walk(m.tree):
+            if isinstance(node, ast.ImportFrom) and node.level >= 1:
+                cands = []
+                if node.module:
+                    cands.append("moclo.core." + node.module if node.level == 1 else None)
+                else:
+                    cands.extend("moclo.core." + a.name for a in node.names if node.level == 1)
+                for c in cands:
+                    if c and c in p.modules and c.rsplit(".", 1)[-1].startswith("_") and c not in out \
+                            and c not in ("moclo.core._structured", "moclo.core.__init__"):
+                        out.append(c)
+    p._assembly_layer = tuple(out)
+    return p._assembly_layer
 
 
 def layer_functions(p: Program) -> List[FuncInfo]:
@@ -43,7 +68,7 @@ def _callees(p: Program, fi: FuncInfo) -> List[FuncInfo]:
                 _, g = p.class_attr_def(fi.owner, n.func.attr)
             elif isinstance(n.func, ast.Name):
                 g = p.resolve_expr(fi.module, n.func)
-                if isinstance(g, ClassInfo) and g.module is not None and g.module.name in ASSEMBLY_LAYER:
+                if isinstance(g, ClassInfo) and g.module is not None and g.module.name in assembly_layer(p):
                     g = g.attrs.get("__init__")  # a small class of the layer instantiated: its constructor runs
             if isinstance(g, FuncInfo):
                 out.append(g)
@@ -52,7 +77,7 @@ def _callees(p: Program, fi: FuncInfo) -> List[FuncInfo]:
 
 def _layer_classes(p: Program):
     out = []
-    for mn in ASSEMBLY_LAYER:
+    for mn in assembly_layer(p):
         m = p.modules.get(mn)
         if m is not None:
             out.extend(m.classes.values())
@@ -94,9 +119,48 @@ def _may_be_value_object(p: Program, f: FuncInfo, recv: ast.expr, vclasses) -> b
                     g = None
                 if isinstance(g, ClassInfo) and g in vclasses:
                     return True
-                if isinstance(g, FuncInfo) and g.module.name in ASSEMBLY_LAYER:
+                if isinstance(g, FuncInfo) and g.module.name in assembly_layer(p):
                     return True  # a helper of the layer: may hand out value objects
     return False
+
+
+def _class_members(p: Program, ci) -> set:
+    """names an instance of ci answers to: what the class and its bases of the code base define, and what its methods
+    bind on self"""
+    cache = p.__dict__.setdefault("_class_members_cache", {})
+    if id(ci) not in cache:
+        names = set()
+        open_ended = False
+        for c in p.mro(ci):
+            if not isinstance(c, ClassInfo):
+                if getattr(c, "dotted", "") != "builtins.object":
+                    open_ended = True  # a library base brings members we do not know
+                continue
+            names |= set(c.attrs)
+            for raw in c.attrs.values():
+                if isinstance(raw, FuncInfo) and raw.node.args.args:
+                    me = raw.node.args.args[0].arg
+                    for n in ast.walk(raw.node):
+                        if isinstance(n, ast.Attribute) and isinstance(n.ctx, ast.Store) and isinstance(n.value, ast.Name) and n.value.id == me:
+                            names.add(n.attr)
+            if "__getattr__" in c.attrs or "__slots__" not in c.attrs and False:
+                open_ended = True
+        cache[id(ci)] = (names, open_ended)
+    return cache[id(ci)]
+
+
+def _candidate_classes(p: Program, f: FuncInfo, recv: ast.expr, vclasses):
+    """the value classes of the layer an object named by `recv` in f can be an instance of: every attribute the function
+    reads on that name must be something the class has (a record has .annotations, a plan object does not)"""
+    if not isinstance(recv, ast.Name):
+        return list(vclasses)
+    used = {n.attr for n in ast.walk(f.node) if isinstance(n, ast.Attribute) and isinstance(n.value, ast.Name) and n.value.id == recv.id}
+    out = []
+    for ci in vclasses:
+        names, open_ended = _class_members(p, ci)
+        if open_ended or used <= names:
+            out.append(ci)
+    return out
 
 
 def reach(p: Program, fi: FuncInfo, depth: int = 4) -> List[FuncInfo]:
@@ -145,7 +209,7 @@ def reach(p: Program, fi: FuncInfo, depth: int = 4) -> List[FuncInfo]:
                         if isinstance(raw, FuncInfo):
                             nxt.append(raw)
                     elif _may_be_value_object(p, f, fn.value, vclasses):
-                        for ci in vclasses:
+                        for ci in _candidate_classes(p, f, fn.value, vclasses):
                             raw = ci.attrs.get(fn.attr)
                             if isinstance(raw, FuncInfo):
                                 nxt.append(raw)
@@ -169,12 +233,12 @@ def reach(p: Program, fi: FuncInfo, depth: int = 4) -> List[FuncInfo]:
             elif isinstance(n, ast.Attribute) and isinstance(n.ctx, ast.Load) and not n.attr.startswith("__") and id(n) not in call_funcs \
                     and _may_be_value_object(p, f, n.value, vclasses):
                 # a method of a value object of the layer handed on as a value (table.lookup)
-                for ci in vclasses:
+                for ci in _candidate_classes(p, f, n.value, vclasses):
                     raw = ci.attrs.get(n.attr)
                     if isinstance(raw, FuncInfo):
                         nxt.append(raw)
         for g in nxt:
-            if g not in out and g.module.name in ASSEMBLY_LAYER:
+            if g not in out and g.module.name in assembly_layer(p):
                 out.append(g)
                 todo.append((g, d - 1))
     cache[key] = out
@@ -211,7 +275,7 @@ def _slot_storing_methods(p: Program) -> dict:
     """{method name: FuncInfo} for the methods of the layer's value classes that store into a slot of something the
     receiver holds (``self.container[self.index] = value``)"""
     out = {}
-    for mn in ASSEMBLY_LAYER:
+    for mn in assembly_layer(p):
         m = p.modules.get(mn)
         if m is None:
             continue
@@ -419,7 +483,7 @@ def citation_functions(p: Program) -> Tuple[FuncInfo, FuncInfo]:
             deref, ref = d2, r2
     if len(ref) != 1 or len(deref) != 1:
         raise AnalysisError("anchor vanished: the citation rewrite pair is not recognised in %s (dereference candidates %s, re-reference candidates %s)"
-                            % (", ".join(ASSEMBLY_LAYER), [f.qualname for f in deref], [f.qualname for f in ref]))
+                            % (", ".join(assembly_layer(p)), [f.qualname for f in deref], [f.qualname for f in ref]))
     p._citation_functions = (deref[0], ref[0])
     return p._citation_functions
 
@@ -530,7 +594,7 @@ def manager_phases(p: Program) -> dict:
     preds = {
         "map": names("DuplicateModules"),
         "walk": names("MissingModule"),
-        "annotate": lambda n: isinstance(n, ast.Constant) and n.value == "topology",
+        "annotate": lambda n: (isinstance(n, ast.Constant) and n.value == "topology") or (isinstance(n, ast.keyword) and n.arg == "topology"),
     }
     out = {}
     first = _callees(p, entry)
@@ -636,6 +700,28 @@ def _is_pattern_compiler(p: Program, f: FuncInfo, fn: ast.expr) -> bool:
     return len(params) == 1 and bool(rets) and all(
         isinstance(v, ast.Call) and isinstance(v.func, ast.Name) and v.func.id == "DNARegex" and len(v.args) == 1 and not v.keywords
         and isinstance(v.args[0], ast.Name) and v.args[0].id == params[0] for v in rets)
+
+
+def search_entries(p: Program):
+    """[(method of DNARegex, its parameter names without self)]: the methods that take the target first and the `linear`
+    flag -- `search` itself and whatever other doors lead to the scan (search_with -> _scan(string, pos, endpos, linear));
+    a stand-in for the structure search is installed on every one of them, reading its arguments by name"""
+    ci = p.get_class("moclo.regex.DNARegex")
+    out = []
+    for raw in ci.attrs.values():
+        if isinstance(raw, FuncInfo):
+            ps = [a.arg for a in raw.node.args.posonlyargs + raw.node.args.args]
+            if raw.kind in ("method", "classmethod") and ps:
+                ps = ps[1:]
+            if raw.name == "search" or ("linear" in ps and ps and ps[0] in ("string", "target", "record", "sequence", "seq")):
+                out.append((raw, ps, raw.kind in ("method", "classmethod")))
+    return out
+
+
+def bind_search_args(ps, skip_self, args, kwargs) -> dict:
+    given = dict(zip(ps, list(args)[1:] if skip_self else list(args)))
+    given.update(kwargs)
+    return given
 
 
 def regex_getter(p: Program) -> FuncInfo:
